@@ -100,6 +100,25 @@ def behaviour_probe():
     return None
 
 
+def create_race(variant):
+    """two threads open the same NEW name with different options: the second must get the keyspace the first created (its
+    options are ignored), whatever the interleaving.  Thread a is held inside its options closure (Database::keyspace calls
+    it at the point where it has decided to create the keyspace); thread b calls keyspace(name) meanwhile."""
+    oa, ob = [("mt=2000 blob=1", "mt=99999999"), ("fifo=1000000 manualp=1", "blob=16")][variant]
+    L = ["open plain", "pausepoint harness.ks.options 1 hold", "thread a ks h0 alpha %s &" % oa, "waitpause harness.ks.options",
+         "thread b ks h1 alpha %s &" % ob, "sleep 300", "pausepoint harness.ks.options 1 off", "release harness.ks.options",
+         "thread a cfg h0", "thread b cfg h1", "names", "reopen", "ks h2 alpha", "cfg h2", "names"]
+    prog = "\n".join(L) + "\n"
+    o, raw, rc = run_fjv(prog, env_extra={"FJV_SYNC_TIMEOUT_MS": "8000"}, timeout=90)
+    ca, cb, n1, c2, n2 = o.get(9), o.get(10), o.get(11), o.get(14), o.get(15)
+    if ca is None or cb is None or (ca or "").startswith("err") or (cb or "").startswith("err"):
+        return None
+    if ca != cb or c2 != ca or n1 != "alpha" or n2 != "alpha":
+        return ("two threads created keyspace 'alpha' concurrently with options (%s) and (%s): stored options seen by a: %s | by b: %s | "
+                "after reopen: %s; names %s / %s" % (oa, ob, ca, cb, c2, n1, n2), prog)
+    return None
+
+
 def wrap_probe():
     """known: a level-ratio vector of 256 entries stores length byte 0 (lsm-tree's Leveled has no bound)"""
     rec = "lev=4:1000:" + ",".join(["3f800000"] * 256)
@@ -119,6 +138,8 @@ def run(rep, tier, seed, build):
     bp = behaviour_probe()
     if bp:
         rep.violation("# C16: " + bp + "\n")
+    for x in [x for x in pmap(create_race, [0, 1], workers=2) if x][:1]:
+        rep.violation("# C16: %s\n%s" % x)
     wrapped, after = wrap_probe()
     if wrapped:
         f = known_switch("C16", "d_ratio_len_wrap")
